@@ -9,6 +9,7 @@
 package main
 
 import (
+	"errors"
 	"fmt"
 	"strconv"
 	"strings"
@@ -445,10 +446,26 @@ func wholeRun(mode, rate string, maxDur time.Duration, conc int, bodySleep time.
 				if bodySleep > 0 {
 					vtime.Sleep(bodySleep)
 				}
-				if id%2 == 0 {
+				// the outcome sequence: every second iteration fails, each in another way (marking the handle,
+				// stopping the iteration, panicking with an error value, a runtime error, a string)
+				switch id % 10 {
+				case 0:
 					x.fail++
 					t.Fail()
-				} else {
+				case 2:
+					x.fail++
+					t.FailNow()
+				case 4:
+					x.fail++
+					panic(errors.New("iteration panics with an error value"))
+				case 6:
+					x.fail++
+					var m map[string]int
+					m["runtime error"] = id
+				case 8:
+					x.fail++
+					panic("iteration panics with a string")
+				default:
 					x.pass++
 				}
 			}
